@@ -446,6 +446,76 @@ def rule_call_parens(ctx, prop):
                               f"argument` established: {single} (a call with several arguments would lose all but one)",
                               f.loc(), cfg)
         rep.floor("paths converting f(x) to call sugar", nconv, 2, cfg)
+        # the other direction: when every documented condition holds, the only thing that may still keep the parentheses is
+        # the kind of the argument - a path that keeps them without having looked at the argument decided on something else
+        # the discriminant keys under which converting paths examined the argument (a later look at the same element through
+        # another `iter().next()` - the table-hugging test - is a different key and does not count)
+        argkeys = set()
+        for st in res:
+            v = st.vals.get(0)
+            if v and v[0] == "callres" and callee(f.blocks[v[1]]["term"]) == f.path:
+                argkeys |= {kk for kk, vv in st.disc.items()
+                            if isinstance(vv, str) and vv in ("String", "TableConstructor") and kk != f"arg:{ai}"}
+        nkeep = 0
+        seen2 = set()
+        for st in res:
+            v = st.vals.get(0)
+            if v and v[0] == "callres" and callee(f.blocks[v[1]]["term"]) == f.path:
+                continue        # a converting path (judged above)
+            k = _key_like(st, ".call_parentheses")
+            cons = st.disc.get(k) if k else None
+            # three-valued: a documented condition known to fail explains the kept parentheses; one that was never examined
+            # (short-circuit after an extra, undocumented condition) does not
+            is_input = (isinstance(cons, str) and cons == "Input")
+            if is_input:
+                continue
+            nn = st.disc.get(f"arg:{ni}")
+            if isinstance(nn, str) and nn == "ObscureWithoutParens":
+                continue
+            single = None
+            for hk, hv in st.hist:
+                if hk == "cmp":
+                    op_, a_, b_, out_ = hv
+                    side = b_ if (is_const(a_) and a_.get("v") == 1) else a_ if (is_const(b_) and b_.get("v") == 1) else None
+                    if side is not None and op_ in ("Eq", "Ne") and \
+                            any(c.endswith("::len") for c in prov_calls(provenance(f, side))):
+                        holds = (op_ == "Eq" and out_) or (op_ == "Ne" and not out_)
+                        single = holds if single is None else (single and holds)
+                elif isinstance(hk, str) and hk.startswith("int:"):
+                    kb = hk[4:].split(".")[0]
+                    if kb.startswith("call:") and callee(f.blocks[int(kb[5:])]["term"]).endswith("len"):
+                        holds = hv == ("int", 1)
+                        single = holds if single is None else (single and holds)
+            if single is False:
+                continue
+            # `match arguments.len() { 1 => arguments.iter().next(), .. }`: with exactly one argument established, a path on which
+            # that `next()` (or a filter over it) answered None does not exist
+            if any(vv == "None" and re.match(r"call:\d+$", kk) and
+                   re.search(r"Iterator>::next$|Option::<.*>::filter$", callee(f.blocks[int(kk[5:])]["term"]))
+                   for kk, vv in st.disc.items()):
+                continue
+            for kind, pred in (("String", "should_omit_string_parens"), ("TableConstructor", "should_omit_table_parens")):
+                omit = [dec for cb, dec in st.decisions.items() if callee(f.blocks[cb]["term"]).endswith(pred)]
+                if not omit or not all(omit):
+                    continue
+                looked = {kk: st.disc[kk] for kk in argkeys if kk in st.disc}
+                is_kind = any(vv == kind for vv in looked.values())
+                nkeep += 1
+                sig = (kind, bool(looked), is_kind)
+                if sig in seen2:
+                    continue
+                seen2.add(sig)
+                ok = bool(looked) and not is_kind
+                rep.inst(f"{f.key} [Parentheses kept, {pred} holds] argument examined={bool(looked)} is-{kind}={is_kind}", None, cfg, ok=ok)
+                if not ok:
+                    rep.violation(f"{f.key} [Parentheses kept] {pred}=True no-documented-condition-fails argument-examined={bool(looked)} is-{kind}={is_kind}",
+                                  f"format_function_args keeps the parentheses on a path where {pred} holds and none of the documented "
+                                  f"conditions (call_parentheses == Input, more than one argument, an index / method call follows) is "
+                                  f"known to fail, "
+                                  f"{'without looking at the kind of the argument' if not looked else 'although the argument is a ' + kind}: "
+                                  f"something other than the documented conditions (layout, width, comments) decides whether "
+                                  f"`f(\"x\")` becomes `f \"x\"`, so the option is not honoured for every call", f.loc(), cfg)
+        rep.floor("non-converting paths with every documented condition established", nkeep, 1, cfg)
         # the single argument is kept: the aggregate's payload derives from `arguments` of the Parentheses
         for b, si_, s in f.stmts():
             if s["k"] == "assign" and s["rv"]["k"] == "agg" and s["rv"].get("adt", "").endswith("FunctionArgs") and \
